@@ -39,6 +39,7 @@ pub struct Stats {
     pub skipped_panic: u64,
     pub budget_hits: u64,
     pub max_mode_depth: usize,
+    pub max_stack_used: usize,
     pub violations: BTreeMap<String, Violation>,
     pub counters: BTreeMap<String, i128>,
     pub maxima: BTreeMap<String, f64>,
@@ -81,6 +82,7 @@ impl Stats {
             self.histories.insert(r.decisions.clone());
         }
         self.max_mode_depth = self.max_mode_depth.max(r.max_mode_depth);
+        self.max_stack_used = self.max_stack_used.max(ex.stack_used);
         match &ex.outcome {
             Outcome::Panic(_) => self.skipped_panic += 1,
             Outcome::Budget(_) => self.budget_hits += 1,
@@ -152,6 +154,7 @@ impl Stats {
         self.skipped_panic += o.skipped_panic;
         self.budget_hits += o.budget_hits;
         self.max_mode_depth = self.max_mode_depth.max(o.max_mode_depth);
+        self.max_stack_used = self.max_stack_used.max(o.max_stack_used);
         for (k, v) in o.violations {
             match self.violations.get_mut(&k) {
                 None => {
@@ -207,6 +210,7 @@ impl Stats {
         j.set("skipped_panic", self.skipped_panic);
         j.set("budget_hits", self.budget_hits);
         j.set("max_mode_depth", self.max_mode_depth);
+        j.set("max_native_stack_bytes", self.max_stack_used);
         let mut c = J::obj();
         for (k, v) in &self.counters {
             c.set(k.clone(), J::Int(*v));
